@@ -283,3 +283,36 @@ M("C10", "V", "envelope gets an aliased member", JSONRPC, "class JSONRPCRequest(
 M("C10", "V", "new untyped dump site", "chuk_mcp/protocol/messages/tools/send_messages.py", "    return ToolResult.model_validate(response)\n", "    out = ToolResult.model_validate(response)\n    logging_copy: Any = out\n    _ = logging_copy.model_dump()\n    return out\n", "R1",
   more=[("chuk_mcp/protocol/messages/tools/send_messages.py", "from typing import", "from typing import Any as _AnyUnused, ")])
 M("C10", "B", "exclude_none added", "chuk_mcp/server/protocol_handler.py", "            \"serverInfo\": self.server_info.model_dump(),\n", "            \"serverInfo\": self.server_info.model_dump(exclude_none=True),\n")
+
+# ------------------------------------------------------------------------------ C17
+M("C17", "V", "OPT_APPEND_NEWLINE", FASTJSON, "            options = 0\n            if kwargs.get(\"indent\"):\n                options |= _orjson.OPT_INDENT_2\n\n            return _orjson.dumps(obj, option=options).decode(\"utf-8\")", "            options = _orjson.OPT_APPEND_NEWLINE\n            if kwargs.get(\"indent\"):\n                options |= _orjson.OPT_INDENT_2\n\n            return _orjson.dumps(obj, option=options).decode(\"utf-8\")", "R2")
+M("C17", "V", "OPT_STRICT_INTEGER without the fallback arm", FASTJSON,
+  "        try:\n            # orjson options for compatibility with stdlib json\n            # OPT_INDENT_2 for pretty printing if indent kwarg present\n            options = 0\n            if kwargs.get(\"indent\"):\n                options |= _orjson.OPT_INDENT_2\n\n            return _orjson.dumps(obj, option=options).decode(\"utf-8\")\n        except Exception as e:\n            # Fallback to stdlib json if orjson fails (e.g., unsupported types)\n            logger.debug(f\"orjson failed, falling back to stdlib json: {e}\")\n            return _stdlib_json.dumps(obj, **kwargs)\n    else:",
+  "        options = _orjson.OPT_STRICT_INTEGER\n        if kwargs.get(\"indent\"):\n            options |= _orjson.OPT_INDENT_2\n        return _orjson.dumps(obj, option=options).decode(\"utf-8\")\n    elif kwargs.get(\"never\"):\n        return _stdlib_json.dumps(obj, **kwargs)\n    else:", "R2")
+M("C17", "V", "decode latin-1", FASTJSON, "            return _orjson.dumps(obj, option=options).decode(\"utf-8\")", "            return _orjson.dumps(obj, option=options).decode(\"latin-1\")", "R1")
+M("C17", "V", "post-processing of the encoded text", FASTJSON, "            return _orjson.dumps(obj, option=options).decode(\"utf-8\")", "            return _orjson.dumps(obj, option=options).decode(\"utf-8\").replace(\"\\u2028\", \"\")", "R1")
+M("C17", "V", "always indent", FASTJSON, "            if kwargs.get(\"indent\"):\n                options |= _orjson.OPT_INDENT_2\n\n            return _orjson.dumps(", "            options |= _orjson.OPT_INDENT_2\n\n            return _orjson.dumps(", "R2")
+M("C17", "V", "stdlib loads with parse_float", FASTJSON, "        if isinstance(s, bytes):\n            s = s.decode(\"utf-8\")\n        return _stdlib_json.loads(s)\n\n\ndef dump(", "        if isinstance(s, bytes):\n            s = s.decode(\"utf-8\")\n        return _stdlib_json.loads(s, parse_float=str)\n\n\ndef dump(", "R")
+M("C17", "V", "loads strips input", FASTJSON, "            return _orjson.loads(s)\n        except Exception as e:\n            # Fallback to stdlib json if orjson fails", "            return _orjson.loads(s.strip())\n        except Exception as e:\n            # Fallback to stdlib json if orjson fails", "R1")
+M("C17", "V", "indent at a frame writer", STDIO, "                json_str = json.dumps(error_response)\n", "                json_str = json.dumps(error_response, indent=2)\n", "R3")
+M("C17", "B", "alias renamed", FASTJSON, "            return _orjson.dumps(obj, option=options).decode(\"utf-8\")", "            return _orjson.dumps(obj, option=options).decode(\"utf8\")")
+M("C17", "B", "OPT_SORT_KEYS", FASTJSON, "            options = 0\n            if kwargs.get(\"indent\"):\n                options |= _orjson.OPT_INDENT_2\n\n            return _orjson.dumps(obj, option=options).decode(\"utf-8\")", "            options = _orjson.OPT_SORT_KEYS\n            if kwargs.get(\"indent\"):\n                options |= _orjson.OPT_INDENT_2\n\n            return _orjson.dumps(obj, option=options).decode(\"utf-8\")")
+
+# ------------------------------------------------------------------------------ C16
+_SHIELD = "        finally:\n            # Reached also when the caller's scope was cancelled mid-shutdown:\n            # never leave the child running behind us.\n            if self.process and self.process.returncode is None:\n                with anyio.CancelScope(shield=True):\n                    try:\n                        await self._terminate_process()\n                    except Exception as e:\n                        logger.debug(f\"Error during stdio client shutdown: {e}\")\n"
+M("C16", "V", "shielded finally removed (pre-fix code)", STDIO, _SHIELD, "", "R2")
+M("C16", "V", "finally without shield", STDIO, "                with anyio.CancelScope(shield=True):\n                    try:\n                        await self._terminate_process()\n", "                if True:\n                    try:\n                        await self._terminate_process()\n", "R2")
+M("C16", "V", "shield=False", STDIO, "                with anyio.CancelScope(shield=True):\n", "                with anyio.CancelScope(shield=False):\n", "R2")
+M("C16", "V", "wait without fail_after", STDIO, "                    # Reduced timeout from 5s to 1s\n                    with anyio.fail_after(1.0):\n                        await self.process.wait()\n                except TimeoutError:\n                    # Changed from WARNING to DEBUG level\n                    logger.debug(\"Graceful term timed out - killing …\")",
+  "                    # Reduced timeout from 5s to 1s\n                    if True:\n                        await self.process.wait()\n                except TimeoutError:\n                    # Changed from WARNING to DEBUG level\n                    logger.debug(\"Graceful term timed out - killing …\")", "R1")
+M("C16", "V", "kill before terminate", STDIO, "                logger.debug(\"Terminating subprocess…\")\n                self.process.terminate()\n", "                logger.debug(\"Terminating subprocess…\")\n                self.process.kill()\n                self.process.terminate()\n", "R1")
+M("C16", "V", "grace periods 5 s", STDIO, "                    with anyio.fail_after(1.0):\n                        await self.process.wait()\n                except TimeoutError:\n                    # Changed from WARNING to DEBUG level\n                    logger.debug(\"Graceful term timed out - killing …\")", "                    with anyio.fail_after(5.0):\n                        await self.process.wait()\n                except TimeoutError:\n                    # Changed from WARNING to DEBUG level\n                    logger.debug(\"Graceful term timed out - killing …\")", "R1")
+M("C16", "V", "no kill on timeout", STDIO, "                    logger.debug(\"Graceful term timed out - killing …\")\n                    self.process.kill()\n", "                    logger.debug(\"Graceful term timed out - killing …\")\n", "R1")
+M("C16", "V", "spawn failure swallowed", STDIO, "        except Exception as e:\n            logger.error(f\"Error starting stdio client: {e}\")\n            raise\n", "        except Exception as e:\n            logger.error(f\"Error starting stdio client: {e}\")\n            return self\n", "R4")
+M("C16", "V", "__aexit__ swallows the body's exception", STDIO, "                    except Exception as e:\n                        logger.debug(f\"Error during stdio client shutdown: {e}\")\n\n        return False\n", "                    except Exception as e:\n                        logger.debug(f\"Error during stdio client shutdown: {e}\")\n\n        return True\n", "R3")
+M("C16", "V", "terminate skipped when the task group errors", STDIO, "            if self.process and self.process.returncode is None:\n                await self._terminate_process()\n\n        except Exception as e:\n            logger.debug(f\"Error during stdio client shutdown: {e}\")\n        finally:\n            # Reached also when the caller's scope was cancelled mid-shutdown:\n            # never leave the child running behind us.\n            if self.process and self.process.returncode is None:",
+  "            if self.process and self.process.returncode is None:\n                await self._terminate_process()\n\n        except Exception as e:\n            logger.debug(f\"Error during stdio client shutdown: {e}\")\n        finally:\n            # Reached also when the caller's scope was cancelled mid-shutdown:\n            # never leave the child running behind us.\n            if self.process and self.process.returncode is None and exc_type is None:", "R2")
+M("C16", "V", "fabricated empty result when the child died", STDIO, "        else:\n            # No legacy stream - just log for debugging\n            logger.debug(f\"Received message for unknown id: {msg_id}\")\n", "        else:\n            # No legacy stream - just log for debugging\n            logger.debug(f\"Received message for unknown id: {msg_id}\")\n            _placeholder = {\"jsonrpc\": \"2.0\", \"id\": msg_id, \"result\": {}}\n", "R5")
+M("C16", "B", "logging reordered", STDIO, "                logger.debug(\"Terminating subprocess…\")\n                self.process.terminate()\n", "                self.process.terminate()\n                logger.debug(\"Terminating subprocess…\")\n")
+M("C16", "B", "shield around the finally's if", STDIO, "            if self.process and self.process.returncode is None:\n                with anyio.CancelScope(shield=True):\n                    try:\n                        await self._terminate_process()\n                    except Exception as e:\n                        logger.debug(f\"Error during stdio client shutdown: {e}\")\n",
+  "            with anyio.CancelScope(shield=True):\n                if self.process and self.process.returncode is None:\n                    try:\n                        await self._terminate_process()\n                    except Exception as e:\n                        logger.debug(f\"Error during stdio client shutdown: {e}\")\n")
